@@ -8,7 +8,7 @@ use crate::scope;
 pub const META_C11: Meta = Meta {
     id: "C11",
     level: "exploration",
-    rule: "Start from a fitting (program, signal list) pair of profile `binding` and apply 0-3 perturbations drawn from: remove / duplicate / rename a signal, change its direction, add extras (incl. an input literally named `<bidirectional>_out`), declare a virtual signal named like a real one, put C into an arbitrary column (output, virtual, `_out`, input), make an expression read an input / a virtual signal / an undeclared name, rename a header column to `<x>_out`, and scoping traps (variable bound only inside a loop and read after it, let inside while then read outside, read before let in the same loop body, loop bound reading its own counter, `n` read in a repeat bound). An independent judgement fits(model, signals) written from the statement of C11 decides what must happen; required: with_signals is Ok iff fits, and never panics. For every accepted pair the test is then iterated to the end against a device supplying every output-capable signal: a panic, a missing-outputs error or any disagreement with the reference row stream is a violation. Non-trivial = >= 1 perturbation or scoping trap applied; the evidence reports the 2x2 table fits x accepted (off-diagonal must be empty, both diagonal cells populated).",
+    rule: "Start from a fitting (program, signal list) pair of profile `binding` and apply 0-3 perturbations drawn from: remove / duplicate / rename a signal, change its direction, add extras (incl. an input literally named `<bidirectional>_out`), declare a virtual signal named like a real one, put C into an arbitrary column (output, virtual, `_out`, input), make an expression read an input / a virtual signal (declared by the program, or one that came with the signal list) / an undeclared name, rename a header column to `<x>_out`, and scoping traps (variable bound only inside a loop and read after it, let inside while then read outside, read before let in the same loop body, loop bound reading its own counter, `n` read in a repeat bound). An independent judgement fits(model, signals) written from the statement of C11 decides what must happen; required: with_signals is Ok iff fits, and never panics. For every accepted pair the test is then iterated to the end against a device supplying every output-capable signal: a panic, a missing-outputs error or any disagreement with the reference row stream is a violation. Non-trivial = >= 1 perturbation or scoping trap applied; the evidence reports the 2x2 table fits x accepted (off-diagonal must be empty, both diagonal cells populated).",
     assumptions: &["fits() in harness/src/scope.rs is the trusted judgement (60 lines, parse-time scope rule as stated in C11)"],
     quick_cases: 150000,
     thorough_cases: 3000000,
@@ -180,7 +180,9 @@ fn perturb(case: &mut Case, r: &mut Prng) -> &'static str {
             }
         }
         9 | 10 => {
-            let target = match r.below(4) {
+            let target = match r.below(5) {
+                // a virtual signal that came with the signal list (not declared by this program)
+                4 => case.signals.iter().find(|s| matches!(s.kind, SigKind::Virtual(_))).map(|s| s.name.clone()),
                 0 => case.signals.iter().find(|s| matches!(s.kind, SigKind::In(_))).map(|s| s.name.clone()),
                 1 => case.program.declares().first().map(|d| d.0.to_string()),
                 2 => Some("nope".to_string()),
